@@ -739,7 +739,7 @@ func genGraph1(r *Rng, o genOpts) *ggraph {
 		if md.kind == modESM {
 			md.hasDef = r.Chance(40)
 			md.defFn = r.Chance(40)
-			md.aliasTwo = false // only in the fixed known-finding scenario (see fixed.go)
+			md.aliasTwo = len(md.locals) > 0 && r.Chance(8) // export {v as p2, v as q2} (finding C02-A, repaired by a7bd0a8)
 			md.throws = r.Chance(3) && md.id != 0
 		}
 	}
